@@ -2,6 +2,7 @@
 import vlib
 import javagen as J
 import C01, C10, C12
+import javawide as W
 
 ID = "C07"
 MODEL_ENTRY = "C07.model"
@@ -69,9 +70,17 @@ def gen(rng):
         facts, texts, _, _ = C12.gen(rng)
         for f, (p, t) in zip(facts, texts):
             files.append((p, "api", f[0] + "." + f[4], f, t))
+    # ---- unconventional files (nested / anonymous / enum / record types ...): full-pass runs without a model
+    for i in range(rng.choice([0, 2, 2, 3])):
+        g = W.G(rng, nonascii=False, depth=3)
+        p = "wide/W%d.java" % i
+        text = g.unit(pkg="wide.p%d" % i)
+        # an anonymous class with a method of its own, created inside a method body
+        text += "class Holder%d { void make%d() { Runnable r = new Runnable() { public void run%d() { } }; r.run%d(); } }\n" % (i, i, i, i)
+        files.append((p, "wide", p, [], text))
     order = C01.walk_order([f[0] for f in files])
     files = [next(f for f in files if f[0] == p) for p in order]
-    idx = {k: [i for i, f in enumerate(files) if f[1] == k] for k in ("main", "bs", "api")}
+    idx = {k: [i for i, f in enumerate(files) if f[1] == k] for k in ("main", "bs", "api", "wide")}
     def subset(l):
         if len(l) <= 1: return list(l)
         k = rng.randint(1, len(l) - 1)
@@ -86,6 +95,9 @@ def gen(rng):
         runs += [["bs", idx["bs"]], ["bs", subset(idx["bs"])], ["bs", idx["bs"]]]
     if idx["api"]:
         runs += [["api", idx["api"]], ["api", subset(idx["api"])], ["api", idx["api"]]]
+    if idx["wide"]:
+        Wd = idx["wide"]
+        runs += [["fullw", Wd], ["fullw", perm(Wd)], ["fullw", perm(subset(Wd))], ["fullw", Wd]]
     ix = {f[2]: i for i, f in enumerate(files)}
     runs += [["full", [ix[k] for k in chain_keys]], ["full", [ix[chain_keys[1]]]], ["full", [ix[k] for k in chain_keys]]]
     runs += [["call", "com.chain.Vault.save", "1"]] * 3 + [["rcall", "com.chain.Vault.save"]] * 2
@@ -98,7 +110,7 @@ def gen(rng):
     # the first full pass over all main files provides the dependencies of the graph queries
     pos = min([i for i, r in enumerate(runs) if r[0] in ("call", "rcall")] or [len(runs)])
     runs.insert(rng.randint(0, pos), first)
-    runs = [[r[0], [str(i) for i in r[1]]] if r[0] in ("ident", "full", "bs", "api") else r for r in runs]
+    runs = [[r[0], [str(i) for i in r[1]]] if r[0] in ("ident", "full", "fullw", "bs", "api") else r for r in runs]
     return files, runs
 
 def harness_input(c):
@@ -118,6 +130,8 @@ def canon(out):
             res.append("skip")
         elif isinstance(o, list) and o and isinstance(o[0], str):
             res.append(o)                       # crash marker
+        elif isinstance(o, list) and o and all(isinstance(p, list) and len(p) == 2 and isinstance(p[1], str) for p in o):
+            res.append("skip")                  # serialised entries of unconventional files: no model
         else:
             res.append([[p[0], _canon_entry(p[1])] if isinstance(p, list) and len(p) == 2 else p for p in o])
     return res
